@@ -146,6 +146,7 @@ type Engine struct {
 	OpaquePkgs     []string
 	shared         sync.Map // *ssa.Package -> *sharedPkg
 	SharedInitPkgs map[string]bool
+	FreshInitPkgs  map[string]bool
 	Seed           int64
 	sampled        sync.Map
 }
@@ -160,6 +161,7 @@ func NewEngine(prog *ssa.Program) *Engine {
 		extraExternals: map[string]externalFn{},
 		SkipInitPkgs:   map[string]bool{},
 		SharedInitPkgs: map[string]bool{},
+		FreshInitPkgs:  map[string]bool{},
 	}
 	if rt := prog.ImportedPackage("runtime"); rt != nil {
 		if t := rt.Type("errorString"); t != nil {
@@ -178,11 +180,8 @@ func NewEngine(prog *ssa.Program) *Engine {
 func (e *Engine) Stub(orig, repl *ssa.Function) { e.stubs[orig] = repl }
 
 var defaultOpaque = []string{
-	"runtime", "os", "syscall", "reflect", "internal/", "net", "crypto/", "testing",
-	"github.com/prometheus/", "log/slog", "log", "fmt", "encoding/json", "google.golang.org/protobuf",
-	"github.com/getsentry/", "os/", "runtime/", "sync", "unsafe", "hash/maphash", "unique", "math/rand", "time",
-	"golang.org/x/sys/", "github.com/AdguardTeam/AdGuardDNS/internal/metrics", "io/fs", "path/filepath",
-	"golang.org/x/exp/rand", "compress/", "net/http", "mime", "github.com/quic-go/",
+	"reflect", "internal/reflectlite", "fmt", "encoding/json", "testing", "google.golang.org/protobuf/",
+	"net/http", "crypto/tls", "github.com/quic-go/", "gopkg.in/yaml.v2",
 }
 
 var opaqueExceptions = []string{"net/netip", "net/url", "internal/bytealg", "internal/stringslite", "internal/byteorder", "internal/itoa", "internal/godebug", "crypto/subtle"}
@@ -205,14 +204,36 @@ func (e *Engine) opaque(path string) bool {
 	return false
 }
 
+var noopPkgs = []string{
+	"log/slog", "log", "github.com/prometheus/", "github.com/AdguardTeam/golibs/log", "github.com/AdguardTeam/golibs/logutil/",
+	"github.com/AdguardTeam/AdGuardDNS/internal/optslog", "github.com/AdguardTeam/AdGuardDNS/internal/optlog",
+	"github.com/getsentry/", "github.com/AdguardTeam/AdGuardDNS/internal/errcoll",
+}
+
+// noop reports whether calls into the package are modelled as doing nothing
+// (logging, metrics, error collection): they return zero values.
+func (e *Engine) noop(path string) bool {
+	for _, p := range noopPkgs {
+		if strings.HasSuffix(p, "/") {
+			if strings.HasPrefix(path, p) {
+				return true
+			}
+		} else if path == p {
+			return true
+		}
+	}
+	return false
+}
+
 func (e *Engine) skipInit(path string) bool {
-	if e.SkipInitPkgs[path] {
+	if e.noop(path) || e.SkipInitPkgs[path] {
 		return true
 	}
-	if path == "net/netip" || path == "net/url" {
-		return false
+	switch path {
+	case "runtime", "reflect", "unsafe", "testing", "internal/reflectlite", "runtime/debug", "runtime/pprof", "runtime/trace", "runtime/metrics":
+		return true
 	}
-	return e.opaque(path) && path != "time" && path != "io/fs" && path != "os" && path != "net" && path != "syscall"
+	return false
 }
 
 type sharedPkg struct {
@@ -223,7 +244,8 @@ type sharedPkg struct {
 // sharedInit initialises pkg once for all paths if it is declared shared
 // (read-only tables); returns false if pkg is not shared.
 func (e *Engine) sharedInit(i *interpreter, pkg *ssa.Package) bool {
-	if !e.SharedInitPkgs[pkg.Pkg.Path()] {
+	path := pkg.Pkg.Path()
+	if e.FreshInitPkgs[path] || (strings.HasPrefix(path, "github.com/AdguardTeam/AdGuardDNS") && !e.SharedInitPkgs[path]) {
 		return false
 	}
 	v, _ := e.shared.LoadOrStore(pkg, &sharedPkg{})
@@ -283,6 +305,9 @@ func newInterpreter(e *Engine, h *Harness, solver *Solver, script []Decision) *i
 		dead:       make(chan struct{}),
 		res:        &PathResult{},
 		tracing:    e.Trace,
+		model:      map[string]uint64{},
+		pcSet:      map[*Term]bool{},
+		modelOK:    true,
 	}
 	if h != nil && h.MaxSteps > 0 {
 		i.maxSteps = h.MaxSteps
@@ -314,6 +339,40 @@ func (i *interpreter) alt(d Decision) {
 	i.newAlts = append(i.newAlts, a)
 }
 
+// pcAssert adds t to the path condition and keeps the cached model honest.
+func (i *interpreter) pcAssert(t *Term) {
+	if i.pcSet[t] {
+		return
+	}
+	i.pcSet[t] = true
+	if t.op == "and" {
+		for _, a := range t.args {
+			i.pcSet[a] = true
+		}
+	}
+	i.solver.Assert(t)
+	if i.modelOK {
+		if v, ok := t.Eval(i.model); !ok || v != 1 {
+			i.modelOK = false
+		}
+	}
+}
+
+func (i *interpreter) setModel(m map[string]uint64) {
+	if m != nil {
+		i.model, i.modelOK = m, true
+	}
+}
+
+// evalModel evaluates t under the cached model of the path condition.
+func (i *interpreter) evalModel(t *Term) (bool, bool) {
+	if !i.modelOK {
+		return false, false
+	}
+	v, ok := t.Eval(i.model)
+	return v == 1, ok
+}
+
 // branch decides a boolean condition, forking when both outcomes are feasible.
 func (i *interpreter) branch(c value) bool {
 	if b, ok := c.(bool); ok {
@@ -323,42 +382,72 @@ func (i *interpreter) branch(c value) bool {
 	if i.solver == nil {
 		panic(pathAbort{kind: abortUnsupported, msg: "symbolic branch without solver (package init?)"})
 	}
+	nt := i.tc.Mk("not", SBool, t)
 	if d, ok := i.nextScripted(); ok {
 		if d.Kind != 'b' {
 			panic(pathAbort{kind: abortInternal, msg: fmt.Sprintf("script desync: want branch, have %v at %d", d, i.pos-1)})
 		}
 		if d.V == 1 {
-			i.solver.Assert(t)
+			i.pcAssert(t)
 			return true
 		}
-		i.solver.Assert(i.tc.Mk("not", SBool, t))
+		i.pcAssert(nt)
 		return false
 	}
-	nt := i.tc.Mk("not", SBool, t)
-	rT, _ := i.solver.Check(t, nil, false)
-	if rT == Unsat {
-		// forced false
+	const unset = SatResult(-1)
+	rT, rF := unset, unset
+	var mT, mF map[string]uint64
+	if i.pcSet[t] {
+		i.recordAt('b', 1)
+		return true
+	}
+	if i.pcSet[nt] {
 		i.recordAt('b', 0)
-		i.solver.Assert(nt)
 		return false
 	}
-	rF, _ := i.solver.Check(nt, nil, false)
+	if v, ok := i.evalModel(t); ok {
+		if v {
+			rT, mT = Sat, i.model
+		} else {
+			rF, mF = Sat, i.model
+		}
+	}
+	if rT == unset {
+		rT, mT = i.solver.Check(t, i.tc.vars, true)
+	}
+	if rT == Unsat {
+		i.recordAt('b', 0)
+		i.pcAssert(nt)
+		return false
+	}
+	if rF == unset {
+		rF, mF = i.solver.Check(nt, i.tc.vars, true)
+	}
 	if rF == Unsat {
 		if rT == Unknown {
 			i.unknowns++
 		}
 		i.recordAt('b', 1)
-		i.solver.Assert(t)
+		if rT == Sat {
+			i.setModel(mT)
+		}
+		i.pcAssert(t)
 		return true
 	}
 	if rT == Unknown || rF == Unknown {
 		i.unknowns++
 	}
+	_ = mF
 	// both feasible (or unknown): take true, queue false
 	i.pos = len(i.script)
 	i.alt(Decision{'b', 0})
 	i.record(Decision{'b', 1})
-	i.solver.Assert(t)
+	if rT == Sat {
+		i.setModel(mT)
+	} else {
+		i.modelOK = false
+	}
+	i.pcAssert(t)
 	return true
 }
 
@@ -381,7 +470,7 @@ func (i *interpreter) concretize(x value, k types.BasicKind) value {
 		if d.Kind != 'v' {
 			panic(pathAbort{kind: abortInternal, msg: fmt.Sprintf("script desync: want value, have %v at %d", d, i.pos-1)})
 		}
-		i.solver.Assert(i.tc.Mk("=", SBool, t, i.tc.Const(t.sort, d.V)))
+		i.pcAssert(i.tc.Mk("=", SBool, t, i.tc.Const(t.sort, d.V)))
 		return mkInt(k, d.V)
 	}
 	// enumerate feasible values
@@ -422,7 +511,7 @@ func (i *interpreter) concretize(x value, k types.BasicKind) value {
 		i.alt(Decision{'v', v})
 	}
 	i.record(Decision{'v', vals[0]})
-	i.solver.Assert(i.tc.Mk("=", SBool, t, i.tc.Const(t.sort, vals[0])))
+	i.pcAssert(i.tc.Mk("=", SBool, t, i.tc.Const(t.sort, vals[0])))
 	return mkInt(k, vals[0])
 }
 
@@ -456,19 +545,26 @@ func (i *interpreter) assume(c value) {
 		return
 	}
 	t := c.(*Sym).t
-	if i.pos < len(i.script) || i.scriptedRegion() {
+	if i.pos < len(i.script) {
 		// inside the replayed prefix the assumption is known feasible
-		i.solver.Assert(t)
+		i.pcAssert(t)
 		return
 	}
-	r, _ := i.solver.Check(t, nil, false)
+	if v, ok := i.evalModel(t); ok && v {
+		i.pcAssert(t)
+		return
+	}
+	r, m := i.solver.Check(t, i.tc.vars, true)
 	if r == Unsat {
 		panic(pathAbort{kind: abortInfeasible})
 	}
 	if r == Unknown {
 		i.unknowns++
+		i.modelOK = false
+	} else {
+		i.setModel(m)
 	}
-	i.solver.Assert(t)
+	i.pcAssert(t)
 }
 
 // scriptedRegion is true while every remaining decision is still scripted.
@@ -516,7 +612,7 @@ func (i *interpreter) assert(label string, c value) {
 	}
 	t := c.(*Sym).t
 	nt := i.tc.Mk("not", SBool, t)
-	r, m := i.solver.Check(nt, i.nondetVars(), true)
+	r, m := i.solver.Check(nt, i.tc.vars, true)
 	switch r {
 	case Sat:
 		i.violation(label, m, "")
@@ -524,12 +620,23 @@ func (i *interpreter) assert(label string, c value) {
 		i.unknowns++
 		i.res.Unknowns++
 	}
-	// continue under the assumption that the assertion holds
-	r2, _ := i.solver.Check(t, nil, false)
-	if r2 == Unsat {
-		panic(pathAbort{kind: abortDone, msg: "assertion cannot hold"})
+	if r == Unsat {
+		// pc implies t: nothing to add
+		return
 	}
-	i.solver.Assert(t)
+	// continue under the assumption that the assertion holds
+	if v, ok := i.evalModel(t); !(ok && v) {
+		r2, m2 := i.solver.Check(t, i.tc.vars, true)
+		if r2 == Unsat {
+			panic(pathAbort{kind: abortDone, msg: "assertion cannot hold"})
+		}
+		if r2 == Sat {
+			i.setModel(m2)
+		} else {
+			i.modelOK = false
+		}
+	}
+	i.pcAssert(t)
 }
 
 func (i *interpreter) violation(label string, m map[string]uint64, detail string) {
@@ -635,7 +742,7 @@ func (e *Engine) Explore(h *Harness) *HarnessReport {
 			for _, a := range alts {
 				queue = append(queue, workItem{a})
 			}
-			if int(n) >= maxPaths && (len(queue) > 0 || inflight > 0) {
+			if int(n) >= maxPaths && (len(queue) > 0 || inflight > 0) && !stop {
 				rep.Problems = append(rep.Problems, fmt.Sprintf("budget: path limit %d reached with %d scripts pending", maxPaths, len(queue)))
 				stop = true
 			}
@@ -672,6 +779,23 @@ func (e *Engine) Explore(h *Harness) *HarnessReport {
 	sort.Slice(rep.Samples, func(a, b int) bool { return rep.Samples[a].Label < rep.Samples[b].Label })
 	rep.Wall = time.Since(start)
 	return rep
+}
+
+// RunScript executes exactly one path following script (debugging aid).
+func (e *Engine) RunScript(h *Harness, script string) *PathResult {
+	var ds []Decision
+	for _, f := range strings.Fields(script) {
+		var v uint64
+		fmt.Sscanf(f[1:], "%d", &v)
+		ds = append(ds, Decision{Kind: f[0], V: v})
+	}
+	solver, err := NewSolver(&e.Stats, e.Timeout)
+	if err != nil {
+		panic(err)
+	}
+	defer solver.Close()
+	res, _, _ := e.runPath(h, solver, ds)
+	return res
 }
 
 // runPath executes one path.
